@@ -3,7 +3,7 @@
    the .ml lands there. *)
 From Coq Require Import Extraction ExtrOcamlBasic.
 From Coq Require Import List NArith.
-From FsDb Require Import VList VListRun Codec Core Spec ErrMap ErrMapInst Config Dirs.
+From FsDb Require Import VList VListRun Codec Core Spec ErrMap ErrMapInst Config Dirs Faults.
 
 Extraction Language OCaml.
 
@@ -14,4 +14,5 @@ Extraction "fsdb_model.ml"
   ErrMapInst.errmap_run_err ErrMapInst.errmap_run_wire ErrMapInst.errmap_run_level ErrMapInst.errmap_run_plevel
   Config.run_parse Config.run_valid
   Codec.run_marshal Codec.run_unmarshal Codec.uuid_format Codec.uuid_parse
-  Dirs.dr_init Dirs.dr_step Dirs.dr_allowed Dirs.dr_get_phase.
+  Dirs.dr_init Dirs.dr_step Dirs.dr_allowed Dirs.dr_get_phase
+  Faults.run_faults Faults.src_bytes.
